@@ -104,6 +104,10 @@ def gen_set(rng, prefix, dangling=False):
     ids = [prefix + ("S%d" % i if rng.random() < 0.5 else "G%d.I%d" % (i % 2, i) if rng.random() < 0.7
                      else "G%d.SUB.I%d" % (i % 2, i) if rng.random() < 0.7 else "APP.G%d.SUB%d.I%d" % (i % 2, i % 2, i))
            for i in range(n)]
+    # some ids live in a group that is called like another id (S1 and S1.K3; NAME.K2 next to the built-in NAME)
+    for i in range(1, n):
+        if rng.random() < 0.15:
+            ids[i] = rng.choice(ids[:i] + ([] if prefix else ["NAME", "ERROR", "NUMBER"])) + ".K%d" % i
     late_missing = prefix + "MISSING.X"
     items = {}
     for i, sid in enumerate(ids):
@@ -188,10 +192,15 @@ def chain_len(items, sid, registered):
 
 
 def nest(flat):
-    """flat dotted ids -> nested dictionaries (as deep as the ids have components)"""
+    """flat dotted ids -> nested dictionaries (as deep as the ids have components); an id that lives in a group
+    called like another id OF THE SAME DICTIONARY stays a flat dotted key (a name cannot be item and group at once)"""
     out = {}
     for k, v in flat.items():
         parts = k.split('.')
+        prefixes = {'.'.join(parts[:n]) for n in range(1, len(parts))}
+        if prefixes & set(flat) or any(o.startswith(k + '.') for o in flat):
+            out[k] = v
+            continue
         d = out
         clash = False
         for p in parts[:-1]:
@@ -391,7 +400,16 @@ def run_history(ctx, items, plan, mode, case):
             # their defaults in it (in the order they were created) and must reflect the result
             init2 = {i: items[i]['descr'] for i in plan["swap"]}
             conf2 = ColorsConfig(nest(init2))
+            # somebody obtained the palette of the first configuration while it was the global one, and keeps it
+            kept = conf.get_palette()
+            kept_want = {sid: want_of(sid)[0] for sid in items if sid in registered}
             akcolor.set_global_colors_config(conf2)
+            for sid, want in kept_want.items():
+                ctx.count("kept_palette_checks_after_a_global_switch")
+                got = shown_state(kept[sid])
+                if got != want:
+                    fail("palette-kept-across-a-global-switch-follows-the-new-configuration",
+                         {"id": sid, "shown": repr(got), "expected": repr(want)})
             synced_palettes = [p for p in palettes if p[2]]
             registered.clear()
             registered.update(init2)
